@@ -37,21 +37,20 @@ class HsObj:
 
 
 class TlsCtx:
-    def __init__(self):
+    def __init__(self, flavour='rustls_0_23'):
+        self.flavour = flavour
         txt = mir.dep_of_mount('actix-tls', 'actix-tls') + '\n' + mir.repo_crate('actix-utils') + '\n' + mir.repo_crate('local-waker')
         self.fns = parse_mir(txt)
         R = core.REPO
-        self.structs, self.enums = parse_layouts([R + '/actix-tls/src/accept/mod.rs', R + '/actix-tls/src/accept/rustls_0_23.rs', R + '/actix-utils/src/counter.rs',
+        self.structs, self.enums = parse_layouts([R + '/actix-tls/src/accept/mod.rs', R + '/actix-tls/src/accept/%s.rs' % flavour, R + '/actix-utils/src/counter.rs',
                                                   R + '/local-waker/src/lib.rs', R + '/actix-utils/src/future/ready.rs'])
         self.structs.update({'TlsStream': [0], 'Counter': [0], 'CounterGuard': [0]})
         rx = Exec(self.fns, MODELS, self.structs, self.enums)
-        def M(ty, meth, tr=None, contains='rustls_0_23'):
+        def M(ty, meth, tr=None, contains='accept/%s.rs' % flavour):
             c = [f for n, f in self.fns.items() if (n.endswith('::' + meth)) and contains in n]
             c = [f for f in c if rx.resolve((ty, tr, meth)) is f or True]
-            f = rx.resolve((ty, tr, meth))
-            if f is None or (contains and contains not in f.name and contains != ''):
-                cand = [g for g in c if g.impl_loc and _impl_is(rx, g, ty, tr)]
-                f = cand[0] if len(cand) == 1 else None
+            cand = [g for g in c if g.impl_loc and _impl_is(rx, g, ty, tr)]
+            f = cand[0] if len(cand) == 1 else None
             if f is None: raise core.Inconclusive('cannot locate %s::%s in the MIR dump of actix-tls' % (ty, meth))
             return f
         self.NEW = M('Acceptor', 'new'); self.SET_TO = M('Acceptor', 'set_handshake_timeout'); self.NEW_SERVICE = M('Acceptor', 'new_service', 'ServiceFactory')
@@ -178,6 +177,10 @@ def m_hs_poll(ex, a, t):
     hs.done = True
     if ans == 'o': return Enum('Poll', 'Ready', [Enum('Result', 'Ok', [Struct('ServerTlsStream', [Opaque('io')])])])
     return Enum('Poll', 'Ready', [Enum('Result', 'Err', [models.IoErr(Enum('ErrorKind', 'Other'))])])
+def m_hs_poll_unit(ex, a, t):
+    r = m_hs_poll(ex, a, t)
+    if r.variant == 'Ready' and r.f[0].v.variant == 'Ok': return Enum('Poll', 'Ready', [Enum('Result', 'Ok', [UNIT])])
+    return r
 def m_poll_map(ex, a, t):
     p, clo = a
     if p.variant != 'Ready': return p
@@ -191,6 +194,11 @@ def m_pin_get_unchecked_mut(ex, a, t): return a[0]
 MODELS[:0] = [
     (r'LocalKey::<.*>::with::<', m_localkey_with), (r'TlsAcceptor::accept::<', m_tls_accept),
     (r'^<&mut (tokio_rustls::)?Accept<.*> as Future>::poll$|^<(tokio_rustls::)?Accept<.*> as Future>::poll$', m_hs_poll),
+    # OpenSSL flavour: SslAcceptor::context / Ssl::new are opaque; tokio_openssl::SslStream::new creates the scripted handshake object
+    (r'^<SslAcceptor as Clone>::clone$', lambda ex, a, t: target(a[0])),
+    (r'SslAcceptor::context$', lambda ex, a, t: Opaque('ssl-context')), (r'(?:^|::)Ssl::new$', lambda ex, a, t: Enum('Result', 'Ok', [Opaque('ssl')])),
+    (r'SslStream::<.*>::new$', lambda ex, a, t: Enum('Result', 'Ok', [ex.tlsworld.next_hs])),
+    (r'SslStream::<.*>::poll_accept$', lambda ex, a, t: m_hs_poll_unit(ex, a, t)),
     (r'^Poll::<.*>::map::<', m_poll_map), (r'^Pin::<.*>::new$', m_pin_new), (r'^Pin::<.*>::new_unchecked$', m_pin_new_unchecked),
     (r'^Pin::<.*>::get_unchecked_mut$', m_pin_get_unchecked_mut), (r'(?:^|::)sleep$', m_sleep_tls),
 ]
@@ -286,13 +294,18 @@ def random_tokens(rnd):
 
 
 def run_c18(rep, tier, seed):
+    for flavour in ('rustls_0_23', 'openssl'):
+        run_c18_flavour(rep, tier, seed, flavour)
+
+
+def run_c18_flavour(rep, tier, seed, flavour):
     rep.engines.add('mirsym (engine S) + z3 %s' % z3.get_version_string())
-    rep.models |= {'tokio_rustls::{TlsAcceptor::accept, Accept} = scripted handshake future (every answer a solver choice)', 'actix_rt::time::{sleep, Sleep} on the virtual clock',
+    rep.models |= {'tokio_rustls::{TlsAcceptor::accept, Accept} = scripted handshake future (every answer a solver choice)', 'openssl::ssl::{SslAcceptor::context, Ssl::new} = opaque; tokio_openssl::SslStream::{new, poll_accept} = the same scripted handshake', 'actix_rt::time::{sleep, Sleep} on the virtual clock',
                    'thread_local MAX_CONN_COUNTER = one Counter per world, built by the real Counter::new with a symbolic maximum', 'Pin constructors = identity', 'Rc / Cell / Waker models'}
-    rep.assumptions += ['only the rustls-0_23 acceptor is encoded (the openssl, native-tls and older rustls acceptors have the same shape but are NOT covered)',
+    rep.assumptions += ['the rustls-0_23 and OpenSSL acceptors are encoded (native-tls and the older rustls acceptors have the same shape but are NOT covered)',
                         'everything inside the TLS library (handshake contents, data integrity of the stream) is outside this technique',
                         'engine S is validated on every run against the real actix-tls compiled natively with the model back end']
-    ctx = TlsCtx(); build()
+    ctx = TlsCtx(flavour); build()
     rnd = random.Random(seed); n = 60 if tier == 'quick' else 200
     cases = []
     for _ in range(n):
@@ -303,7 +316,7 @@ def run_c18(rep, tier, seed):
     for limit, timeout, toks in cases:
         try: sym.append(sym_trace(ctx, limit, timeout, toks))
         except (IndexError, AttributeError, TypeError): sym.append(None)
-    lines = ['limit=%d timeout=%d | %s' % (l, t, ' '.join(tk)) for (l, t, tk), s in zip(cases, sym) if s is not None]
+    lines = ['flavour=%s limit=%d timeout=%d | %s' % (flavour, l, t, ' '.join(tk)) for (l, t, tk), s in zip(cases, sym) if s is not None]
     nat = run_native(lines) if lines else []
     k = 0; bad = []
     for (l, t, tk), s in zip(cases, sym):
@@ -315,7 +328,7 @@ def run_c18(rep, tier, seed):
     steps, calls = (8, 3) if tier == "quick" else (10, 4)
     t0 = time.time()
     acc = explore_levels(ctx.mk, make_body(ctx, steps, calls), steps + 1, seed=seed)
-    rep.bounds.update({'operations': steps, 'concurrent_calls': calls, 'limit': 'symbolic 1..65536', 'handshake_timeout_ms': 'symbolic 100..5000', 'clock_increment_ms': 'symbolic 0..6000 per tick',
+    rep.bounds[flavour] = dict({'operations': steps, 'concurrent_calls': calls, 'limit': 'symbolic 1..65536', 'handshake_timeout_ms': 'symbolic 100..5000', 'clock_increment_ms': 'symbolic 0..6000 per tick',
                        'pending_answers': 3, 'distinct_states_per_level': acc.level_counts, 'wall_s': round(time.time() - t0, 1)})
     acc.to_report(rep)
     for key, v in sorted(acc.viol.items()):
@@ -324,11 +337,11 @@ def run_c18(rep, tier, seed):
             if h.startswith('tick:dt'): toks.append('tick:%d' % int(m.get(h[5:], 0)))
             else: toks.append(h)
         limit = int(m.get('limit', 1)); timeout = int(m.get('handshake_timeout_ms', 100))
-        line = 'limit=%d timeout=%d | %s' % (limit, timeout, ' '.join(toks))
+        line = 'flavour=%s limit=%d timeout=%d | %s' % (flavour, limit, timeout, ' '.join(toks))
         nat1 = run_native([line])[0]
         try: sym1 = sym_trace(ctx, limit, timeout, toks)
         except Exception: sym1 = None
-        fkey = '%s: ops=[%s]' % (v['obligation'], ' '.join(h.split(':')[0] if h.startswith('tick') else h for h in v['hist']))
+        fkey = '%s: %s ops=[%s]' % (v['obligation'], flavour, ' '.join(h.split(':')[0] if h.startswith('tick') else h for h in v['hist']))
         path = core.write_replay('C18', fkey, {'line': line, 'obligation': v['obligation'], 'native_trace': nat1, 'engine_trace': sym1})
         rep.violation(fkey, '%s -- %s; schedule: %s; native trace: %s' % (v['obligation'], v['what'], line, nat1), replay=path, reproduced=(sym1 is not None and nat1.strip() == sym1.strip()))
 
